@@ -42,7 +42,7 @@ func init() {
 			"made for the operation's own Caller parameter and for the same name value that is then accessed (R-C01-1); checkAndLog can return nil only on paths where " +
 			"Rules.Allow(action, secret) on its own parameters returned true, and its denial carries ErrAccessDenied (R-C01-2); List appends only entries read under a per-name " +
 			"Allow(info,name) and SecretInfo cannot carry value bytes (R-C01-4); read-only operations reach no write of persistent state (R-C01-5); the matching semantics the grants rely on are those decided for C07 (R-C01-8, same rules) and every access to the secrets map inside the store uses the very name that was checked as key (R-C01-9); the server hands the WhoIs identity " +
-			"through unchanged to every db.DB call and builds no Caller of its own (R-C01-6).  Because no state access precedes the decision, refusal cannot depend on existence (R-C01-3).",
+			"through unchanged to every db.DB call and builds no Caller of its own (R-C01-6).  Because no state access precedes the decision, refusal cannot depend on existence (R-C01-3). (R-C01-11) the name validation of the mutating operations lies behind the permission gate (C02's R-C02-5 re-run under this id).",
 		NotDecided:  "What Rules.Allow answers on concrete strings (C07); behaviour over concrete databases and rule sets.",
 		Trusted:     append([]string{"multierr.New / errors.Join return nil iff every element is nil", "package-level sentinel errors are non-nil"}, commonTrusted...),
 		Assumptions: []string{"no reflection/unsafe access to db state (checked: none in package db)"},
@@ -177,6 +177,10 @@ func runC01(c *eng.Ctx, tier string) {
 	// R-C01-10: "one of the caller's rules": the rules of every request come from
 	// that request's own WhoIs answer (C08's identity rule): nothing remembered
 	// from an earlier request, whose grants may have been withdrawn since
+	// R-C01-11: name validation of the mutating operations stays where it is,
+	// behind the gate (an unauthorized caller is refused as such whatever the
+	// name looks like): C02's guard rule
+	includeOnly(c, "R-C01-11", func(sc *eng.Ctx) { runC02(sc, "quick") }, "R-C02-5")
 	include(c, "R-C01-10", func(sc *eng.Ctx) {
 		if gi := anchor(sc.P, "server", "(*Server).getIdentity"); gi != nil {
 			c08Identity(sc, gi)
